@@ -86,7 +86,30 @@ def cases(ndies, thorough):
                     idx += 1
 
 
+ATTR_ALPHABET = [("DW_AT_name", "DW_FORM_string", b"a"), ("DW_AT_name", "DW_FORM_strp", b"pooled"), ("DW_AT_decl_line", "DW_FORM_data1", 7),
+                 ("DW_AT_decl_line", "DW_FORM_data2", 300), ("DW_AT_byte_size", "DW_FORM_data1", 4), ("DW_AT_external", "DW_FORM_flag", 1)]
+
+
+def build_attr_lists(maxlen, ci):
+    """One unit whose DIEs carry every attribute list of up to maxlen entries over ATTR_ALPHABET - the same name may
+    occur several times, with the same or another form; every third DIE is the child of its predecessor."""
+    version, osz = configs(True)[ci]
+    kids, i = [], 0
+    for n in range(0, maxlen + 1):
+        for seq in itertools.product(ATTR_ALPHABET, repeat=n):
+            d = g.Die(dwbattery.TAGS[i % len(dwbattery.TAGS)], [g.Attr(*x) for x in seq])
+            if i % 3 == 2:
+                kids[-1].children.append(d)
+            else:
+                kids.append(d)
+            i += 1
+    root = g.cu_root(b"attrs.c", version=version, offset_size=osz, children=kids)
+    return g.ElfFile([g.Unit(root, version, osz)])
+
+
 def build(desc):
+    if desc[0] == "attrs":
+        return build_attr_lists(desc[1], desc[2])
     n, shape, flagged, ci, sib = desc
     version, osz = configs(True)[ci]
     units = []
@@ -102,7 +125,11 @@ def _worker(d, task, extra):
     path = os.path.join(dwbattery.DWDIR, "c02-%d.o" % os.getpid())
     os.makedirs(dwbattery.DWDIR, exist_ok=True)
     out = {"files": 0, "queries": 0, "results": 0, "dies": 0, "bad": []}
-    for desc in itertools.islice(cases(ndies, thorough), k, None, m):
+    if ndies == "attrs":
+        src = [("attrs", thorough, k)]
+    else:
+        src = itertools.islice(cases(ndies, thorough), k, None, m)
+    for desc in src:
         elf = build(desc)
         nq, nr, bad = dwbattery.run_file(d, BAT, elf, path, None) if False else (0, 0, [])
         elf.write(path)
@@ -113,6 +140,10 @@ def _worker(d, task, extra):
         out["results"] += nr
         out["dies"] += len(view.raw_entries())
         for qid, what in bad[:2]:
+            if desc[0] == "attrs":
+                out["bad"].append(("file:%s|%s" % (json.dumps(desc), qid), "attribute-list family (lists up to %d entries, DWARF %d, %d-byte offsets): %s" % (
+                    desc[1], configs(True)[desc[2]][0], configs(True)[desc[2]][1], what), {"desc": json.dumps(desc), "qid": qid}))
+                continue
             n, shape, flagged, ci, sib = desc
             out["bad"].append(("file:%s|%s" % (json.dumps([n, shape, flagged, ci, sib]), qid),
                                "forest %s (flagged leaves %s, DWARF %d, %d-byte offsets, sibling=%d): %s" % (shape, list(flagged), configs(True)[ci][0], configs(True)[ci][1], sib, what),
@@ -133,8 +164,10 @@ def replay(case):
     ctx = common.Ctx("C02", "quick")
     d = drv.Drv(ctx.bin("zwdrv"), "full")
     try:
-        n, shape, flagged, ci, sib = json.loads(case["desc"])
-        desc = (n, [to_tuple(t) for t in shape], tuple((u, tuple(p)) for u, p in flagged), ci, sib)
+        desc = json.loads(case["desc"])
+        if desc[0] != "attrs":
+            n, shape, flagged, ci, sib = desc
+            desc = (n, [to_tuple(t) for t in shape], tuple((u, tuple(p)) for u, p in flagged), ci, sib)
         elf = build(desc)
         path = os.path.join(dwbattery.DWDIR, "c02-replay-%d.o" % os.getpid())
         os.makedirs(dwbattery.DWDIR, exist_ok=True)
@@ -152,7 +185,9 @@ def main(ctx):
     ndies = 7 if thorough else 6
     m = 512
     # every shape is written in all 8 (version, offset size) configurations in both tiers
-    for r in common.pmap(ctx, _worker, [(ndies, True, k, m) for k in range(m)], bins["zwdrv"], "full", timeout=120):
+    alen = 4 if thorough else 3
+    tasks = [("attrs", alen, ci, 1) for ci in range(8)] + [(ndies, True, k, m) for k in range(m)]
+    for r in common.pmap(ctx, _worker, tasks, bins["zwdrv"], "full", timeout=120):
         for k in ("files", "queries", "results", "dies"):
             ctx.count(k, r[k])
         for key, what, case in r["bad"]:
@@ -168,7 +203,8 @@ def main(ctx):
         "rule": "state = one generated ELF file (forest shape x flagged-leaf subset x version/offset size x sibling attributes); transition = one battery query executed "
                 "on it and compared, result by result, with the generator's model; distinct = distinct file",
         "bounds": {"max_dies": ndies, "max_units": 3, "versions": [2, 3, 4, 5], "offset_sizes": [4, 8], "dies_checked": ctx.counts.get("dies", 0),
-                   "configs_per_shape": "all 8"},
+                   "configs_per_shape": "all 8", "attribute_lists": {"alphabet": [a[:2] for a in ATTR_ALPHABET], "max_entries": alen,
+                                                                       "note": "every list, repeated names included, in all 8 configurations"}},
     }
     return ctx.finish("model_checking", cov, [
         "lib/elfgen.py's layout is the ground truth (validated by lib/test_elfgen.py against an independent reader, readelf and libdw)",
